@@ -72,6 +72,61 @@ def _wire(e: Obj):
         except TypeError:
             raise Raised(ExcVal("TypeError", ("element indices must be integers or slices",)))
     a["__getitem__"] = getitem
+
+    def _match(c, tags):
+        if not tags or tags == (None,) or "*" in tags:
+            return is_elem(c)
+        return is_elem(c) and c.attrs["tag"] in tags
+
+    def _all_nodes(x):
+        for c in x.attrs["__children__"]:
+            yield c
+            if is_elem(c):
+                yield from _all_nodes(c)
+
+    def it_(*tags, tag=None):
+        tags = tuple(t for t in (tags + ((tag,) if tag is not None else ())))
+        if not tags:                           # lxml: iter() without a tag yields comments too
+            return [e] + list(_all_nodes(e))
+        return [x for x in [e] + list(_all_nodes(e)) if _match(x, tags)]
+    a["iter"] = it_
+    a["iterdescendants"] = lambda *tags, tag=None: it_(*tags, tag=tag)[1:] if (tags or tag) is None or not (tags or tag) else \
+        [x for x in it_(*tags, tag=tag) if x is not e]
+
+    def ancestors():
+        out, cur = [], a["__parent__"]
+        while cur is not None:
+            out.append(cur)
+            cur = cur.attrs["__parent__"]
+        return out
+    a["iterancestors"] = lambda *t: ancestors()
+
+    def findtext(path, default=None, namespaces=None):
+        r = path_find(e, path, namespaces)
+        return (r[0].attrs["text"] or "") if r else default
+    a["findtext"] = findtext
+
+    def index(child):
+        for i, c in enumerate(a["__children__"]):
+            if c is child:
+                return i
+        raise Raised(ExcVal("ValueError", ("Element is not a child of this node.",)))
+    a["index"] = index
+
+    def insert(i, child):
+        child.attrs["__parent__"] = e
+        a["__children__"].insert(i, child)
+    a["insert"] = insert
+    a["extend"] = lambda children: [append(e, c) for c in list(children)] and None
+
+    def remove(child):
+        a["__children__"].pop(index(child))
+        child.attrs["__parent__"] = None
+    a["remove"] = remove
+    a["items"] = lambda: list(a["attrib"].items())
+    a["keys"] = lambda: list(a["attrib"].keys())
+    a["values"] = lambda: list(a["attrib"].values())
+    a["itertext"] = lambda: [x.attrs["text"] for x in [e] + [d for d in _all_nodes(e) if is_elem(d)] if x.attrs.get("text")]
     a["__truth__"] = True
 
 
